@@ -43,7 +43,7 @@ describe(
         "appended); the pending protocol is ordered (pending before notification, cleared after the file is "
         "closed, create-or-append by presence of the index in the file); every h5py.File is a context manager."
     ),
-    decided=["11.1 writer/reader name tables", "11.2 append bookkeeping", "11.3 pending protocol", "11.4 files closed", "11.1 CSV rows of a variable"],
+    decided=["11.1 writer/reader name tables", "11.2 append bookkeeping", "11.3 pending protocol", "11.4 files closed", "11.1 CSV rows of a variable", "11.6 function descriptions, solution dictionary, lists of strings"],
     not_decided=["value equality through HDF5 / text formats", "text precision"],
     trusted=["h5py dataset/group semantics"],
 )
